@@ -203,7 +203,7 @@ def _worker(payload):
                 isnt = nontrivial(path) or anchor in ("base", "abs", "rel0")
                 nt += isnt
                 d = judge(client, markers, route, path)
-                if isnt and res.evals % 50021 == 0:
+                if isnt and (nt in (1, 50) or nt % 20011 == 0):
                     res.samples.append((runner.h8((route, path)), {"route": route, "root_setting": root_setting,
                                                                    "path": path.replace(base, "<BASE>")}))
                 if d is not None:
